@@ -567,6 +567,7 @@ func (gen *Generator) GenerateInclude(args []Sexp) error {
 
 	var err error
 	var exps []Sexp
+	startInstructionCount := len(gen.instructions)
 
 	var sourceItem func(item Sexp) error
 
@@ -613,6 +614,11 @@ func (gen *Generator) GenerateInclude(args []Sexp) error {
 		if err != nil {
 			return err
 		}
+	}
+	if len(gen.instructions) == startInstructionCount {
+		// nothing was included (an empty list of files, empty files):
+		// the form is an expression all the same, its value is nil
+		gen.AddInstruction(PushInstr{SexpNull})
 	}
 
 	return nil
